@@ -5,7 +5,7 @@ META = dict(
           '&p->field, three sandbox casts, opaque round trip, store/load of a pointer cell, *pp / pp[0] with boundary representations in the cell) with n from '
           '5 integer types and boundary values; successor must be null or inside the own region (a second instance is live) or the step aborted. Plus every one '
           'of the 2^16 guest representations in 9 pointer-carrying positions (invoke result, callback argument, memory cell, array element, array-of-pointers, '
-          'struct field by pointer / by value / by-value result / copy_and_verify), malloc environment answers (also on a base+representation backend without masking, where an answer beyond the region designates application memory or the neighbouring instance), app pointers; 32-bit instance on boundary states; an instance with a pointer-wide 64-bit base-relative representation over a 64 KiB region on all states and on boundary representations including ones that look like host addresses. '
+          'struct field by pointer / by value / by-value result / copy_and_verify), the raw entry points (tainted / tainted_volatile assign_raw_pointer, UNSAFE_accept_pointer) on every address within 32 bytes of either end of the own and the other live region for each pointee type, malloc environment answers (also on a base+representation backend without masking, where an answer beyond the region designates application memory or the neighbouring instance), app pointers; 32-bit instance on boundary states; an instance with a pointer-wide 64-bit base-relative representation over a 64 KiB region on all states and on boundary representations including ones that look like host addresses. '
           'plus compile probes that a tainted_volatile cannot be copied, moved or default-constructed (it must stay at its address in sandbox memory). states = states whose transitions were all executed; transitions = executed steps (each validated against the implementation).'),
     assumptions=['"inside" is decided by the mbox region; every state satisfying the invariant is explored, which over-approximates the reachable set',
                  'function pointers are excluded by the statement'],
